@@ -308,15 +308,22 @@ func (r *RootApp) Run() error {
 			return err
 		}
 
+		// Parameters that apply to an output file as a whole (template, schema
+		// settings, formatter, force-file-write) are taken from the fully
+		// resolved config of the mocks that share the file, so that they take
+		// effect at whichever level they were written (interface, configs
+		// entry, package or top level).
+		fileConfig := interfacesInFile.interfaces[0].Config
+
 		generator, err := pkg.NewTemplateGenerator(
 			fileCtx,
 			interfacesInFile.srcPkg,
 			interfacesInFile.outFilePath.Parent(),
-			*packageConfig.Config.Template,
-			*packageConfig.Config.TemplateSchema,
-			*packageConfig.Config.RequireTemplateSchemaExists,
+			*fileConfig.Template,
+			*fileConfig.TemplateSchema,
+			*fileConfig.RequireTemplateSchemaExists,
 			remoteTemplateCache,
-			pkg.Formatter(*r.Config.Formatter),
+			pkg.Formatter(*fileConfig.Formatter),
 			packageConfig.Config,
 			interfacesInFile.outPkgName,
 		)
@@ -340,8 +347,8 @@ func (r *RootApp) Run() error {
 			fileLog.Err(err).Msg("can't determine if outfile exists")
 			return fmt.Errorf("determining if outfile exists: %w", err)
 		}
-		if outFileExists && !*packageConfig.Config.ForceFileWrite {
-			fileLog.Error().Bool("force-file-write", *packageConfig.Config.ForceFileWrite).Msg("output file exists, can't write mocks")
+		if outFileExists && !*fileConfig.ForceFileWrite {
+			fileLog.Error().Bool("force-file-write", *fileConfig.ForceFileWrite).Msg("output file exists, can't write mocks")
 			return fmt.Errorf("outfile exists")
 		}
 
